@@ -145,6 +145,12 @@ pub fn run(tier: Tier) -> i32 {
     run.assume("the grammar of DESIGN Appendix A.1 is the Project Haystack Zinc grammar (written from memory of the specification; constructs marked (L) are accepted by the reference reader and never written)");
     run.assume("reference writer -> reference reader is checked to be the identity on every explored spelling (else exit 2)");
     crate::engine::quiet_panics();
+    {
+        let pool: Vec<V> = super::c01::probe_pool();
+        if super::common::probe_first(&mut run, "zinc-codec", &pool, &super::c01::zinc_observation, &|v: &V| crate::model::v::to_json(v)) {
+            return run.finish(&replay);
+        }
+    }
 
     // ---- direction 1
     let scalars = u::scalars(tier);
@@ -312,6 +318,10 @@ fn escape_offset_case(k: usize, form: usize, pos: usize) -> Verdict {
 }
 
 pub fn replay(case: &J) -> Verdict {
+    if case["free_running"] == "zinc-codec" {
+        let pool: Vec<V> = super::c01::probe_pool();
+        return super::common::replay_probe(&pool, &super::c01::zinc_observation, &|v: &V| crate::model::v::to_json(v));
+    }
     if let Some(a) = case["escape_offset"].as_array() {
         let g = |i: usize| a[i].as_u64().unwrap_or(0) as usize;
         return escape_offset_case(g(0), g(1), g(2));
